@@ -75,6 +75,8 @@ class Call(object):
 
 class Trace(object):
     def __init__(self, scn, world):
+        scn = dict(scn)
+        scn['inject'] = [dict((k, v) for k, v in i.items() if k != '_done') for i in scn.get('inject', ())]
         self.scn = scn
         self.world = world
         self.calls = []
@@ -105,7 +107,9 @@ class _Tap(object):
         c = Call(seq=len(t.calls), site=site, comp=comp, mib=mib, ok=False, kw=kw or {}, ctx=t.lookup)
         t.calls.append(c)
         for inj in t.scn.get('inject', ()):
-            if inj['site'] == site and inj['nth'] == n:
+            if inj['site'] == site and (inj['nth'] == n if 'mib' not in inj else (inj['mib'] == mib and not inj.get('_done'))):
+                if 'mib' in inj and inj.get('once', True):
+                    inj['_done'] = True
                 e = _mk_err(inj['cls'], 'injected %s at %s #%d' % (inj['cls'], site, n))
                 c.exc = e
                 c.injected = True
@@ -211,7 +215,7 @@ def make_symtab_tap(trace):
 
         def genCode(self, ast, symbolTable, **kwargs):
             name = ast[0] if isinstance(ast, (tuple, list)) and ast else '?'
-            return self._call('symtab.genCode', 0, name, lambda: self._real.genCode(ast, symbolTable, **kwargs),
+            return self._call('symtab.genCode', 0, name, lambda: self._real.genCode(ast, symbolTable, **kwargs), kw={'ast': ast},
                               payload=lambda r: digest([r[0].name, list(r[0].imported)]))
     return TapSymtab
 
@@ -231,6 +235,7 @@ class TapCodegen(_Tap):
         name = ast[0] if isinstance(ast, (tuple, list)) and ast else '?'
         kw = {k: kwargs.get(k) for k in ('genTexts', 'dstTemplate')}
         kw['has_textFilter'] = kwargs.get('textFilter') is not None
+        kw['ast'] = ast
         return self._call('codegen.genCode', 0, name, lambda: self._real.genCode(ast, symbolTable, **kwargs), kw=kw,
                           payload=lambda r: digest(r[1]))
 
